@@ -311,13 +311,43 @@ def equal(code_expr: ast.expr, spec_text: str, rename_code: Optional[Dict[str, s
     fs = ns.form(parse_expr(spec_text))
     verdict = fc.equals(fs)
     if not verdict:
-        # a mismatch is only definite inside the algebra: if the two sides use different UNINTERPRETED
-        # functions (norm.sf instead of 1 - norm.cdf, x.sum() instead of np.sum(x) ...) nothing is decided
-        def call_heads(norm):
-            return {a.split("(", 1)[0] for a in norm.atoms if "(" in a and not a.startswith("REF[")}
-
-        # (a function of the specification replaced by ANOTHER function; a function merely added where the
-        # specification has a leaf - np.sum(counts) for the total, sqrt(v, out=v) for sqrt(v) - stays definite)
-        if call_heads(nc) - call_heads(ns) and call_heads(ns) - call_heads(nc):
-            return None, "NORM: different uninterpreted functions " + str(sorted(call_heads(nc) ^ call_heads(ns))) + " :: " + fc.text()[:200], fs.text(), fc.notes
+        why = indefinite_mismatch(nc, ns)
+        if why:
+            return None, "NORM: " + why + " :: " + fc.text()[:200], fs.text(), fc.notes
     return verdict, fc.text(), fs.text(), fc.notes
+
+
+def _structured(atom: str) -> bool:
+    """An atom that selects PART of an array by something other than constant integers (a slice, a fancy index,
+    a computed index): how a reference column / plane is taken can be respelled in many equivalent ways."""
+    try:
+        e = ast.parse(atom, mode="eval").body
+    except SyntaxError:
+        return False
+    for n in ast.walk(e):
+        if isinstance(n, ast.Subscript):
+            parts = n.slice.elts if isinstance(n.slice, ast.Tuple) else [n.slice]
+            for p in parts:
+                if not (isinstance(p, ast.Constant) and isinstance(p.value, int)) and not (isinstance(p, ast.UnaryOp) and isinstance(p.operand, ast.Constant)):
+                    return True
+    return False
+
+
+def indefinite_mismatch(nc: "Normalizer", ns: "Normalizer") -> str:
+    """A mismatch of two normal forms is definite only inside the algebra.  It is NOT when
+    * the two sides use different UNINTERPRETED functions (norm.sf for 1 - norm.cdf, x.sum() for np.sum(x)): a
+      function of the specification replaced by ANOTHER function (a function merely added where the
+      specification has a leaf - np.sum(counts) for the total, sqrt(v, out=v) for sqrt(v) - stays definite);
+    * the code has an atom unknown to the specification that selects part of an array by a slice / fancy index
+      (`means[:, [k]]` for `np.broadcast_to(means[:, [k]], means.shape)`): respellings of HOW an operand is obtained.
+    -> reason text, or '' when the mismatch is definite."""
+
+    def call_heads(norm):
+        return {a.split("(", 1)[0] for a in norm.atoms if "(" in a and not a.startswith("REF[")}
+
+    if call_heads(nc) - call_heads(ns) and call_heads(ns) - call_heads(nc):
+        return "different uninterpreted functions " + str(sorted(call_heads(nc) ^ call_heads(ns)))
+    unknown = [a for a in nc.atoms if a not in ns.atoms and not a.startswith("REF[") and _structured(a)]
+    if unknown:
+        return "operand(s) obtained by a slice / fancy index the specification does not name: " + str(sorted(unknown)[:3])
+    return ""
